@@ -147,28 +147,35 @@ Definition result := option (state * list frame * list (list frame)).
 Definition opt_task {A} (o : option A) (f : A -> list frame) : list (list frame) :=
   match o with Some x => [f x] | None => [] end.
 
-(** addOut n to, executed by the current task (graph.go:141-174) *)
-Definition do_add_out (s : state) (n to : nat) : state * list (list frame) :=
-  let '(g, (linked, shinv, shrel)) := g_add_out (s_nodes s) n to in
-  (with_nodes s g,
-   (if shinv then [[FInvList [to]]] else []) ++ (if shrel then [[FRelEnter n]] else [])).
+(** addOut n to, executed by the current task (graph.go:141-174).  A label that names a node which does not
+    exist is not a label of the program (Go has no dangling pointers): rejected.  addOut(n, n) locks n.mu
+    twice and never returns: not enabled. *)
+Definition do_add_out (s : state) (n to : nat) : option (state * list (list frame)) :=
+  if Nat.ltb n (length (s_nodes s)) && Nat.ltb to (length (s_nodes s)) && negb (Nat.eqb n to) then
+    let '(g, (linked, shinv, shrel)) := g_add_out (s_nodes s) n to in
+    Some (with_nodes s g,
+          (if shinv then [[FInvList [to]]] else []) ++ (if shrel then [[FRelEnter n]] else []))
+  else None.
 
 (** run() returned an error somewhere inside the compute function of rerunner r: every computation that is
     open on this stack is released (rerunner.go:252-255, through Cache's error return :281-284), down to
     and including the rerunner's own (:400).  Returns those computations (innermost first) and the frames
-    below FRunEnd. *)
-Fixpoint unwind (st : list frame) : option (list nat * list frame) :=
+    below FRunEnd.  The frames of one run all carry the run's rerunner; a stack on which they do not is not
+    a stack of the Go program and is rejected. *)
+Fixpoint unwind (r : nat) (st : list frame) : option (list nat * list frame) :=
   match st with
   | [] => None
-  | FRunEnd _ c :: rest => Some ([c], rest)
-  | FCacheSet _ _ child _ :: rest =>
-      match unwind rest with Some (cs, below) => Some (child :: cs, below) | None => None end
-  | FScript _ _ _ :: rest => unwind rest
+  | FRunEnd r' c :: rest => if Nat.eqb r r' then Some ([c], rest) else None
+  | FCacheSet r' _ child _ :: rest =>
+      if Nat.eqb r r' then
+        match unwind r rest with Some (cs, below) => Some (child :: cs, below) | None => None end
+      else None
+  | FScript r' _ _ :: rest => if Nat.eqb r r' then unwind r rest else None
   | _ => None
   end.
 
 Definition do_fail (s : state) (r : nat) (st : list frame) (retry : bool) : result :=
-  match unwind st with
+  match unwind r st with
   | None => None
   | Some (cs, below) =>
       let x := getr s r in
@@ -183,7 +190,7 @@ Definition step_top (s : state) (f : frame) (rest : list frame) (arg : nat) : re
   (* --- graph.go --- *)
   | FInvList l =>
       (* invalidate() on node arg, one of the nodes still to do (graph.go:77-94) *)
-      if memb arg l then
+      if memb arg l && Nat.ltb arg (length (s_nodes s)) then
         let l' := remove1 arg l in
         let nd := getN s arg in
         if n_inv nd then Some (s, FInvList l' :: rest, [])
@@ -277,13 +284,13 @@ Definition step_top (s : state) (f : frame) (rest : list frame) (arg : nat) : re
           else do_fail s r (FScript r c q :: rest) true
       end
   | FDepAdd c sl n =>
-      let '(s1, sp) := do_add_out s n c in Some (s1, FDepRead c sl :: rest, sp)
+      match do_add_out s n c with Some (s1, sp) => Some (s1, FDepRead c sl :: rest, sp) | None => None end
   | FDepRead c sl =>
       Some (upd_node s c (add_val (getN s c) [(sl, slot_ver s sl)]), rest, [])
   | FTimerReg c n =>
       Some (with_nodes s (fst (g_handle_rel (s_nodes s) n HTimer)), FTimerAdd c n :: rest, [])
   | FTimerAdd c n =>
-      let '(s1, sp) := do_add_out s n c in Some (s1, rest, sp)
+      match do_add_out s n c with Some (s1, sp) => Some (s1, rest, sp) | None => None end
   | FChildBegin r key body parent =>
       let '(s1, k) := alloc s new_comp in
       Some (s1, FScript r k body :: FCacheSet r key k parent :: rest, [])
@@ -294,8 +301,10 @@ Definition step_top (s : state) (f : frame) (rest : list frame) (arg : nat) : re
       | None => Some (with_rr s r (set_cache x (r_cache x ++ [(key, child)])), FCacheLink child parent :: rest, [])
       end
   | FCacheLink child parent =>
-      let '(s1, sp) := do_add_out s child parent in
-      Some (upd_node s1 parent (add_val (getN s1 parent) (n_val (getN s1 child))), rest, sp)
+      match do_add_out s child parent with
+      | Some (s1, sp) => Some (upd_node s1 parent (add_val (getN s1 parent) (n_val (getN s1 child))), rest, sp)
+      | None => None
+      end
   | FRunEnd r c =>
       (* rerunner.go:421-427 *)
       let x := getr s r in
